@@ -149,6 +149,62 @@ def check(run):
                          dict(case=small, route=small["route"], first_difference=dd, impl_tokens=tt, model_tokens=mm, original_case=c))
     real_stream(run)
     potable_real_stream(run)
+    api_reuse(run)
+
+
+def api_reuse(run):
+    """the Python API as a program uses it: one tabulation object written, its model changed through the list it exposes, written again; potentials handed over as a
+    one-shot iterable (the documented type is `Iterable`).  Every table written must be the table of the potentials the object holds at that moment."""
+    rng = run.rng
+    reqs, cases = [], []
+    for _ in range(run.n(6, 40)):
+        nr = rng.choice([8, 12, 16, 24])
+        cut = Fr(nr - 4, 2 ** rng.randint(1, 3))
+        pots = [dict(a="A%d" % i, b=rng.choice(["O", "A0"]), fid=i + 1, analytic=True) for i in range(rng.randint(2, 4))]
+        k = rng.randint(1, len(pots) - 1)
+        cases.append((cut, nr, pots, k))
+        for sub in (pots[:k], pots):
+            reqs.append(dict(m="pair", op="dlpoly", cut=fq(cut), nr=nr, pots=[dict(a=p["a"], b=p["b"], fid=p["fid"]) for p in sub]))
+    models = lean_query(reqs)
+    for i, (cut, nr, pots, k) in enumerate(cases):
+        m_first, m_all = models[2 * i], models[2 * i + 1]
+        mk = lambda sub: [Potential(p["a"], p["b"], ApiTracer(p["fid"], True, "dlpoly")) for p in sub]
+        flags = [True] * len(pots)
+        # (1) write, extend the model through .potentials, write again
+        tab = DLPoly_PairTabulation(mk(pots[:k]), float(cut), nr)
+        s1, s2 = io.StringIO(), io.StringIO()
+        tab.write(s1)
+        tab.potentials.extend(mk(pots[k:]))
+        tab.write(s2)
+        run.case(key=("api-reuse", "rewrite", nr, str(cut), k, len(pots)), kind="api-reuse/rewrite-after-change")
+        run.traces += 2
+        for which, text, model, n in (("first", s1.getvalue(), m_first, k), ("second (after %d potential(s) were appended to .potentials)" % (len(pots) - k), s2.getvalue(), m_all, len(pots))):
+            try:
+                d = first_diff(dlpoly_tokens(text, "api", flags[:n]), model)
+            except FormatError as e:
+                d = "record layout: %s" % e
+            if d:
+                run.fail("table-not-of-current-model", "DLPoly_PairTabulation written twice: the %s table differs from the table of the potentials the object then holds: %s" % (which, d),
+                         dict(case=dict(cut=fq(cut), nr=nr, pots=pots, first_write=k), route="class, two writes"))
+                break
+        # (2) one-shot iterables
+        for kind, wrap in (("generator", lambda l: (x for x in l)), ("iterator", iter), ("map", lambda l: map(lambda x: x, l))):
+            for route in ("writePotentials", "class"):
+                s = io.StringIO()
+                try:
+                    if route == "class":
+                        DLPoly_PairTabulation(wrap(mk(pots)), float(cut), nr).write(s)
+                    else:
+                        writePotentials("DL_POLY", wrap(mk(pots)), float(cut), nr, s)
+                    d = first_diff(dlpoly_tokens(s.getvalue(), "api", flags), m_all)
+                except FormatError as e:
+                    d = "record layout: %s" % e
+                except Exception as e:
+                    d = "raised %s: %s" % (type(e).__name__, str(e)[:100])
+                run.case(key=("api-reuse", kind, route, nr, str(cut), len(pots)), kind="api-reuse/one-shot-iterable")
+                run.traces += 1
+                if d:
+                    run.fail("table-not-of-current-model", "%s given the potentials as a %s: %s" % (route, kind, d), dict(case=dict(cut=fq(cut), nr=nr, pots=pots), route=route, iterable=kind))
 
 
 def potable_real_stream(run):
